@@ -13,7 +13,8 @@ Next == /\ verdict = "ok" /\ l <= Len(Traces[tid])
                \* a tracker created without sources (None, omitted, the empty set) listens to no step at all
                h == Append(hist, [src |-> IF e.listens THEN e.src ELSE "other", items |-> e.items])
            IN /\ hist' = h
-              /\ verdict' = IF e.ev = "Feed" THEN "ok"          \* fed to the tracker, its state not observed here
+              /\ verdict' = IF e.ev \notin {"Feed", "Event"} THEN "unknown_event"
+                            ELSE IF e.ev = "Feed" THEN "ok"          \* fed to the tracker, its state not observed here
                             ELSE IF ~e.keptuser THEN "tracker_hands_out_the_optimizer_domain_result"
                             ELSE IF Holds(e.what, e.kept, h, e.flip) THEN "ok"
                             ELSE IF e.kept = 0 THEN "valid_result_blocked_or_dropped"
